@@ -161,6 +161,7 @@ def run_monitor(workdir, traces, props, colseq=("a", "b"), name="mon", module="M
     if isinstance(traces, str):
         traces = [traces]
     t0 = time.time()
+    traces = _split_traces(workdir, traces, name)
     with concurrent.futures.ThreadPoolExecutor(max_workers=min(12, len(traces))) as ex:
         futs = [ex.submit(_run_monitor1, workdir, t, props, colseq, "%s%d" % (name, i), module, timeout, extra_consts)
                 for i, t in enumerate(traces)]
@@ -171,6 +172,44 @@ def run_monitor(workdir, traces, props, colseq=("a", "b"), name="mon", module="M
         events += e
         states += st
     return viols, events, states, time.time() - t0
+
+
+MAX_TRACE_EVENTS = int(os.environ.get("VERIF_MAX_TRACE", "50000"))   # TLC handles behaviours of at most 65535 states; one state per trace line
+
+
+def _split_traces(workdir, traces, name):
+    """Split trace files that are too long for one TLC behaviour at scenario boundaries (reset events)."""
+    out = []
+    for ti, t in enumerate(traces):
+        n = sum(1 for _ in open(t))
+        if n <= MAX_TRACE_EVENTS:
+            out.append(t)
+            continue
+        part, cnt, k = [], 0, 0
+        cur = []   # lines of the current scenario
+
+        def flush_part():
+            nonlocal part, cnt, k
+            if part:
+                pth = os.path.join(workdir, "%s.split%d_%d.ndjson" % (name, ti, k))
+                open(pth, "w").write("".join(part))
+                out.append(pth)
+                k += 1
+                part, cnt = [], 0
+        for line in open(t):
+            if '"ev":"reset"' in line and cur:
+                if cnt + len(cur) > MAX_TRACE_EVENTS:
+                    flush_part()
+                part += cur
+                cnt += len(cur)
+                cur = []
+            cur.append(line)
+        if cnt + len(cur) > MAX_TRACE_EVENTS:
+            flush_part()
+        part += cur
+        cnt += len(cur)
+        flush_part()
+    return out
 
 
 def _run_monitor1(workdir, trace, props, colseq, name, module, timeout, extra_consts):
